@@ -896,6 +896,7 @@ pub const STALE_TAILS: &[Tail] = &[
     Tail::DirtyOnes(2),
     Tail::DirtyRandom(1),
     Tail::DirtyRandom(3),
+    Tail::Regrown,
 ];
 
 /// A big (> 2^32 bits) dense vector for the `upper_counts` path: the harness
